@@ -149,6 +149,16 @@ func lacksPackageClause(o *Obs, tags string) bool {
 	return false
 }
 
+// hasNulBody reports a prior output whose header is intact and whose remainder holds NUL bytes.
+func hasNulBody(o *Obs, tags string) bool {
+	for p, c := range o.PriorOutputs {
+		if strings.HasSuffix(p, ".go") && headerIntact(c, tags) && strings.Contains(c, "\x00") {
+			return true
+		}
+	}
+	return false
+}
+
 func firstDiff(a, b string) string {
 	la, lb := strings.Split(a, "\n"), strings.Split(b, "\n")
 	for i := 0; i < len(la) || i < len(lb); i++ {
@@ -182,9 +192,13 @@ func JudgeC09(c *Ctx, h *History, obs []*Obs) ([]Violation, error) {
 		if canon == nil {
 			canon = h.World.Patterns
 		}
+		visible := false
 		if !premiseHolds(o, tags, canon, h.World.Module) {
-			c.Stats.Add("c09.premise_excluded_gens", 1)
-			continue
+			// the previous output is visible to the loader (part of "the input") — unless it
+			// is exactly what this very run produces from a clean tree: repeating a run over
+			// its own current output must not change anything (checked below, once the
+			// reference is known)
+			visible = true
 		}
 		globals := g.Globals
 		if globals == nil {
@@ -201,12 +215,29 @@ func JudgeC09(c *Ctx, h *History, obs []*Obs) ([]Violation, error) {
 		if err != nil {
 			return nil, err
 		}
+		if visible {
+			current := ref.Exit == 0
+			for p, pc := range o.PriorOutputs {
+				if strings.HasSuffix(p, ".go") && !headerIntact(pc, tags) && ref.Written[p] != pc {
+					current = false
+				}
+			}
+			if !current {
+				c.Stats.Add("c09.premise_excluded_gens", 1)
+				continue
+			}
+			c.Stats.Add("c09.gens_over_visible_current_output", 1)
+		}
 		sfx := ""
 		if g.FileAge != "fresh" && lacksPackageClause(o, tags) {
 			// F9 needs the settled regime (go command reading through its module index);
 			// in the fresh regime the same state must recover
 			sfx = "/stale-output-without-package-clause"
 			c.Stats.Add("c09.gens_over_output_without_package_clause", 1)
+		}
+		if hasNulBody(o, tags) {
+			// known finding F20: go/build refuses files with NUL bytes whatever their constraint
+			sfx = "/stale-output-with-nul-bytes"
 		}
 		c.Stats.Add("c09.compared_gens", 1)
 		if ref.Exit == 0 {
@@ -377,6 +408,15 @@ func overlapVariants(rng *rand.Rand, w *World) [][]string {
 	return out
 }
 
+func hasTag(w *World, t string) bool {
+	for _, x := range w.Tags {
+		if x == t {
+			return true
+		}
+	}
+	return false
+}
+
 func C09Cases(c *Ctx, w *World, rng *rand.Rand, reached []int, nRandom int) []*History {
 	var hs []*History
 	add := func(g *GenSpec, loc int) {
@@ -385,11 +425,25 @@ func C09Cases(c *Ctx, w *World, rng *rand.Rand, reached []int, nRandom int) []*H
 	add(&GenSpec{Plan: planIdentity()}, 0)
 	add(&GenSpec{Plan: planIdentity()}, 1) // repeat at another location
 	// every way of naming the working directory, systematically
-	for _, cw := range []string{"abs", "rel", "abs-slash", "symlink"} {
+	for _, cw := range []string{"abs", "rel", "abs-slash", "symlink", "chdir-symlink", "symlink-rel"} {
 		add(&GenSpec{Plan: planIdentity(), Cwd: cw}, 0)
 	}
 	add(&GenSpec{Plan: planAll("reverse", 0, 0)}, 0)
 	add(&GenSpec{Plan: planAll("rotate", 1, 0)}, 0)
+	// repeated runs whose previous (current) output is visible to the loader: constraint
+	// configured empty, or no build tag
+	for k := 0; k < 2 && hasTag(w, "compiles-with-outputs"); k++ {
+		mk := func() Op {
+			g := &GenSpec{Plan: planIdentity()}
+			if k == 0 {
+				g.OutputConstraint = strp("")
+			} else {
+				g.BuildTags = strp("")
+			}
+			return genOp(g)
+		}
+		hs = append(hs, &History{World: w, Loc: 0, Ops: []Op{mk(), mk(), mk()}})
+	}
 	for _, s := range reached {
 		add(&GenSpec{Plan: planSite(s, "reverse", 0, 0)}, 0)
 	}
